@@ -171,6 +171,7 @@ pub trait IntResAlias {
 }
 
 /// An error whose integer coding is lossy.
+#[repr(C)]
 #[derive(Debug, PartialEq, Eq, Clone, Copy)]
 pub struct TwoErr {
     pub code: i32,
@@ -339,6 +340,14 @@ pub trait ChildrenMore {
     fn m_peek(&self) -> u64;
 }
 
+/// The foreign caller's way of calling an integer-result method: straight through the vtable
+/// entry (the documented getter), with a result slot the caller has filled beforehand. Reports
+/// whether a failed call left the slot as it was. (Not a glue trait: implemented by hand for the
+/// opaque object in dispatch.rs, and trivially for the implementors.)
+pub trait RawSlotCall: ChildrenMore {
+    fn m_res_rawslot(&self, fail: bool) -> Result<Self::MChild, bool>;
+}
+
 /// Four tiny traits whose names order differently with and without regard to case
 /// (IOPort < Inspect and KVStore < KeyDumper case-sensitively; the other way round otherwise).
 #[cglue_trait]
@@ -371,7 +380,7 @@ pub trait KeyDumper {
 // groups --------------------------------------------------------------------------------------
 
 cglue_trait_group!(GrpR, ReadOnly, { IntResAlias });
-cglue_trait_group!(GrpA, Basic, { Shapes, IntRes });
+cglue_trait_group!(GrpA, Basic, { Shapes, IntRes, IntResAlias });
 cglue_trait_group!(GrpB, { Basic, Clone }, { Shapes, Children, Consume, Gen<usize> = GenUsize });
 cglue_trait_group!(GrpD, { Inspect, IOPort }, { KeyDumper, KVStore });
 cglue_trait_group!(GrpC, { ReadOnly, Consume }, { Basic, ChildrenMore, Gen<u64> = GenU64, Gen<usize> = GenUsize });
@@ -997,6 +1006,12 @@ macro_rules! implementor {
             fn key_dump(&self, n: u32) -> u64 {
                 self.core.enter("key_dump", n as u64, &[]);
                 self.core.mix(n as u64 ^ 0xD0)
+            }
+        }
+
+        impl RawSlotCall for $name {
+            fn m_res_rawslot(&self, fail: bool) -> Result<$name, bool> {
+                self.m_res(fail).map_err(|()| true)
             }
         }
 
